@@ -1,6 +1,7 @@
 package c08
 
 import (
+	"sync"
 	"testing"
 
 	"verifharness/concw"
@@ -22,7 +23,17 @@ func TestVerif_Histories(t *testing.T) {
 	r.Require("gc_checks", "gc_paused_at_afterScan", "change_stream_checks")
 	ctl := hookctl.Install(vkit.Seed())
 	defer ctl.Uninstall()
-	o := dbsim.Opts{Tables: 2, Txns: 50, MaxOps: 6, ProbesPerIndex: 1, AbortPct: 15, Iterators: true, Retain: 2, Quiesce: true, ForceGC: true, Ctl: ctl,
+	var monitors sync.Map
+	ctl.OnPoint(func(point, handle string) {
+		if f, ok := monitors.Load(handle); ok {
+			f.(func(string, string))(point, handle)
+		}
+	})
+	onSim := func(s *dbsim.Sim) func() {
+		monitors.Store(s.Handle, s.RegistrationMonitor(ctl))
+		return func() { monitors.Delete(s.Handle) }
+	}
+	o := dbsim.Opts{OnSim: onSim, Tables: 2, Txns: 50, MaxOps: 6, ProbesPerIndex: 1, AbortPct: 15, Iterators: true, Retain: 2, Quiesce: true, ForceGC: true, Ctl: ctl,
 		SchemaPick: []int{0, 2, 2}, Report: map[string]bool{"gc": true, "changes": true, "query": true}}
 	dbsim.BubbleCases(t, r, vkit.N(1000, 40000), o, func(s *dbsim.Sim) bool { return s.GCChecks() > 0 })
 	for p, c := range ctl.Counts() {
